@@ -274,9 +274,14 @@ def run(chk, repo):
     g2_sites = [s_ for s_ in sites if s_[1] == G2t]
     g1_merge = [s_ for s_ in sites if s_[1] == G1t and 'second_variants' in s_[2] and genes_equal(s_) is True]
     ok = bool(g2_sites) and all(genes_equal(s_) is False for s_ in g2_sites) and len(g1_merge) >= 1
-    chk.ob('C18.f', 'same-gene fusion merges second-transcript ids into the first gene\'s list instead of overwriting it', fv.where, ok,
-           'var_ids for a fusion is built so that the second gene key can overwrite the first when both transcripts belong to one gene: the fusion id and '
-           'first-transcript ids are lost before sources are looked up (peptide assigned to the wrong / empty source)', key=fv.qual + '::intragenic-fusion', fn=fv.qual)
+    if not g2_sites and not any(s_[1] == G1t for s_ in sites):
+        # neither gene key is stored in this function any more (the fusion branch was moved / is dispatched through a table): not readable here
+        chk.undecided('C18.f', 'same-gene fusion merge', fv.where, 'no store under the first / second gene key of a fusion found in from_variant_peptide (moved into a dispatched helper?)',
+                      key=fv.qual + '::intragenic-fusion', fn=fv.qual)
+    else:
+      chk.ob('C18.f', 'same-gene fusion merges second-transcript ids into the first gene\'s list instead of overwriting it', fv.where, ok,
+             'var_ids for a fusion is built so that the second gene key can overwrite the first when both transcripts belong to one gene: the fusion id and '
+             'first-transcript ids are lost before sources are looked up (peptide assigned to the wrong / empty source)', key=fv.qual + '::intragenic-fusion', fn=fv.qual)
 
     # ------------------------------------------------------------------ g
     chk.rule('C18.g', 'R-EFFECT: wildcard map is insert-if-absent (first = highest-priority pattern wins)', 2)
